@@ -5,6 +5,8 @@ from ..cfg import cfg_of
 from ..exprs import dotted, unparse, walk_no_nested
 from ..effects import rule_F6
 from ..pathrules import rule_T5, rule_T8i
+from ..rowfacts import rule_M1, rule_M3
+from ..intervals import rule_M6
 
 LEVEL_TEXT = ('Static who-may-call / who-may-write tables, the loop contract of run() on its '
               'CFG (strict budget guard, one batch per iteration, success predicate) and the '
@@ -123,9 +125,12 @@ def run(ctx):
     rule_N1(ctx)
     rule_T5(ctx)
     rule_T8i(ctx)
+    # support: every evaluated point lies in the unit hypercube
+    rule_M3(ctx)
+    rule_M1(ctx)
+    rule_M6(ctx)
     ctx.floor('F6', 6, 'who-may entries')
     ctx.floor('T5', 12, 'loop-contract obligations')
     ctx.floor('T8', 8, 'accounting obligations')
     ctx.not_decided += ['wall-clock behaviour of the timeout',
-                        'the support clause (every evaluated point in the unit hypercube) is '
-                        'decided under C01/C07 rule M3 and not repeated here']
+                        'leaf numerics of Ellipsoid.sample (assumed)']
